@@ -227,6 +227,14 @@ func run(c Case) (pbt.Outcome, error) {
 				}
 			}
 			g.Update(7)
+			// Tagged with no tags names the receiver's own identity: after Close it is as inert as any
+			// other scope obtained afterwards (nothing recorded through it may reach the reporter)
+			for _, self := range []tally.Scope{root.Tagged(nil), root.Tagged(map[string]string{})} {
+				self.Timer("late_self_t").Record(time.Millisecond)
+				self.Counter("late_self_c").Inc(1)
+				self.Gauge("late_self_g").Update(1)
+				self.Timer("late_self_t").Start().Stop()
+			}
 			late := root.SubScope("late")
 			late.Counter("c").Inc(1)
 			late.Tagged(map[string]string{"x": "y"}).Gauge("g").Update(1)
@@ -239,6 +247,8 @@ func run(c Case) (pbt.Outcome, error) {
 				l2.Counter("c").Inc(1)
 				l2.Timer("t").Record(time.Millisecond)
 				old.Tagged(map[string]string{"late": "3"}).Counter("c").Inc(1)
+				old.Tagged(nil).Timer("late_self_t").Record(time.Millisecond)
+				old.SubScope("").Timer("late_self_t").Record(time.Millisecond)
 			}
 			log.Mark("again-call")
 			err2 := closer.Close()
